@@ -20,6 +20,7 @@ type offsetInstance struct {
 	CidObj  types.Object
 	Acc     types.Object // the accumulator (nil when no update was found)
 	Updates []*core.GNode
+	Claimed types.Object // `cur := claim(L)` form: the local that receives the accumulator's value from before the update
 }
 
 func isCarNext(nm string) bool {
@@ -103,10 +104,75 @@ func findOffsetInstances(p *core.Prog) []offsetInstance {
 					}
 				}
 			}
+			// the same step wrapped in a local closure:  cur := claim(L)  with
+			//   claim := func(n uint64) uint64 { start := acc; acc = start + n; return start }
+			if inst.Acc == nil {
+				for _, u := range stmtNodes(g) {
+					ua, ok := u.Ast.(*ast.AssignStmt)
+					if !ok || len(ua.Lhs) != 1 || len(ua.Rhs) != 1 || ua.Pos() < inst.Loop.Pos() || ua.End() > inst.Loop.End() {
+						continue
+					}
+					c, ok := core.Unparen(ua.Rhs[0]).(*ast.CallExpr)
+					if !ok || len(c.Args) != 1 || core.ObjOf(info, c.Args[0]) != inst.LenObj {
+						continue
+					}
+					cv, isV := core.ObjOf(info, c.Fun).(*types.Var)
+					if !isV || cv.IsField() {
+						continue
+					}
+					for _, lit := range p.FuncValuesOf(cv, f) {
+						if acc := claimsFrom(lit); acc != nil {
+							inst.Acc = acc
+							inst.Updates = append(inst.Updates, u)
+							inst.Claimed = core.ObjOf(info, ua.Lhs[0])
+						}
+					}
+				}
+			}
 			out = append(out, inst)
 		}
 	}
 	return out
+}
+
+// claimsFrom recognises  func(n T) T { start := acc; acc = start + n (or acc += n); return start }  and returns acc: the
+// closure hands out the current value of a captured accumulator and advances it by its argument.
+func claimsFrom(lit *core.Func) types.Object {
+	if lit == nil || lit.Lit == nil || lit.ParamObj(0) == nil || lit.ParamObj(1) != nil || len(lit.Body.List) != 3 {
+		return nil
+	}
+	info := lit.Pkg.TypesInfo
+	n := types.Object(lit.ParamObj(0))
+	def, ok1 := lit.Body.List[0].(*ast.AssignStmt)
+	upd, ok2 := lit.Body.List[1].(*ast.AssignStmt)
+	ret, ok3 := lit.Body.List[2].(*ast.ReturnStmt)
+	if !ok1 || !ok2 || !ok3 || def.Tok != token.DEFINE || len(def.Lhs) != 1 || len(def.Rhs) != 1 || len(upd.Lhs) != 1 || len(upd.Rhs) != 1 || len(ret.Results) != 1 {
+		return nil
+	}
+	start := core.ObjOf(info, def.Lhs[0])
+	acc, isV := core.ObjOf(info, def.Rhs[0]).(*types.Var)
+	if start == nil || !isV || acc.IsField() || core.ObjOf(info, upd.Lhs[0]) != types.Object(acc) || core.ObjOf(info, ret.Results[0]) != start {
+		return nil
+	}
+	// captured: declared outside the literal
+	if acc.Pos() >= lit.Lit.Pos() && acc.Pos() <= lit.Lit.End() {
+		return nil
+	}
+	switch upd.Tok {
+	case token.ADD_ASSIGN:
+		if core.ObjOf(info, upd.Rhs[0]) == n {
+			return acc
+		}
+	case token.ASSIGN:
+		if be, ok := core.Unparen(upd.Rhs[0]).(*ast.BinaryExpr); ok && be.Op == token.ADD {
+			x, y := core.ObjOf(info, be.X), core.ObjOf(info, be.Y)
+			old := func(o types.Object) bool { return o == start || o == types.Object(acc) }
+			if (old(x) && y == n) || (old(y) && x == n) {
+				return acc
+			}
+		}
+	}
+	return nil
 }
 
 // checkOffsetInstance emits the obligations (a)-(e) for one instance.
@@ -192,20 +258,21 @@ func checkOffsetInstance(r *core.Report, rule string, inst offsetInstance) {
 		if n == upd || n.Ast.Pos() < inst.Loop.Pos() || n.Ast.End() > inst.Loop.End() {
 			continue
 		}
-		if !core.MentionsOutsideLits(info, n.Ast, acc) {
+		viaClaim := inst.Claimed != nil && core.MentionsOutsideLits(info, n.Ast, inst.Claimed)
+		if !core.MentionsOutsideLits(info, n.Ast, acc) && !viaClaim {
 			continue
 		}
 		if isLogOnly(info, n.Ast) {
 			continue
 		}
 		nUses++
-		// (c) pre-increment value
-		r.Check(!afterUpdate[n], rule, fmt.Sprintf("%s#use@%d-before-update", k, nUses), pos(r, n.Ast), "the offset is used before it is advanced in the same iteration (it is the section's own start)",
+		// (c) pre-increment value (what the claim closure returns is the value from before its update, by construction)
+		r.Check(!afterUpdate[n] || (viaClaim && !core.MentionsOutsideLits(info, n.Ast, acc)), rule, fmt.Sprintf("%s#use@%d-before-update", k, nUses), pos(r, n.Ast), "the offset is used before it is advanced in the same iteration (it is the section's own start)",
 			"the offset is used after it was already advanced by this section's length: the recorded offset is that of the NEXT section")
 		// (e) size recorded with it is the section length itself
 		for _, c := range nodeCalls(n) {
 			nm := core.CalleeName(info, c)
-			if strings.HasSuffix(nm, "_Writer).Put") && len(c.Args) == 3 && core.ObjOf(info, c.Args[1]) == acc {
+			if strings.HasSuffix(nm, "_Writer).Put") && len(c.Args) == 3 && (core.ObjOf(info, c.Args[1]) == acc || (inst.Claimed != nil && core.ObjOf(info, c.Args[1]) == inst.Claimed)) {
 				r.Check(core.ObjOf(info, c.Args[2]) == inst.LenObj, rule, fmt.Sprintf("%s#use@%d-size-is-section-length", k, nUses), pos(r, c), "the size stored with the offset is the section length returned by the reader",
 					"the size stored with the offset is "+core.ExprStr(c.Args[2])+", not the section length returned by the reader")
 				r.Check(core.ObjOf(info, c.Args[0]) == inst.CidObj, rule, fmt.Sprintf("%s#use@%d-key-is-section-cid", k, nUses), pos(r, c), "the key stored with the offset is the CID returned by the same read",
